@@ -1,3 +1,4 @@
+from copy import copy
 from functools import partial
 from typing import Any, Callable, Dict, List, Optional, Union
 
@@ -91,6 +92,21 @@ def graphql_error_from_nodes(
     )
 
 
+def _shallow_copy(exception: Exception) -> Exception:
+    """
+    Returns a shallow copy of the exception so that the path and locations
+    applied to it don't leak to other raises of the same exception instance.
+    :param exception: exception to copy
+    :type exception: Exception
+    :return: a copy of the exception (or the exception if it isn't copyable)
+    :rtype: Exception
+    """
+    try:
+        return copy(exception)
+    except Exception:  # pylint: disable=broad-except
+        return exception
+
+
 def located_error(
     original_error: Exception,
     nodes: List["Node"],
@@ -124,7 +140,7 @@ def located_error(
     computed_exceptions = []
     for exception in exceptions:
         graphql_error = (
-            exception
+            _shallow_copy(exception)
             if is_coercible_exception(exception)
             else graphql_error_from_nodes(
                 str(exception),
